@@ -650,12 +650,21 @@ pub struct BuildRes {
     pub out: Out<String>,
 }
 
+/// every third claim reaches the builder as a `.clone()` of the constructed one (the claim types are Clone)
+pub fn clone_turn<T: Clone>(c: T) -> T {
+    if ctor_turn() % 3 == 0 {
+        c.clone()
+    } else {
+        c
+    }
+}
+
 macro_rules! set_claim_on {
     ($b:expr, $c:expr) => {
         match $c {
             Claim::Custom(k, v) => match CustomClaim::try_from((k.as_str(), v.clone())) {
                 Ok(c) => {
-                    $b.set_claim(c);
+                    $b.set_claim(clone_turn(c));
                     Ok(())
                 }
                 Err(e) => Err(e),
@@ -668,38 +677,38 @@ macro_rules! set_claim_on {
                 Err(e) => Err(e),
             },
             Claim::Iss(s) => {
-                $b.set_claim(IssuerClaim::from(s.as_str()));
+                $b.set_claim(clone_turn(IssuerClaim::from(s.as_str())));
                 Ok(())
             }
             Claim::Sub(s) => {
-                $b.set_claim(SubjectClaim::from(s.as_str()));
+                $b.set_claim(clone_turn(SubjectClaim::from(s.as_str())));
                 Ok(())
             }
             Claim::Aud(s) => {
-                $b.set_claim(AudienceClaim::from(s.as_str()));
+                $b.set_claim(clone_turn(AudienceClaim::from(s.as_str())));
                 Ok(())
             }
             Claim::Jti(s) => {
-                $b.set_claim(TokenIdentifierClaim::from(s.as_str()));
+                $b.set_claim(clone_turn(TokenIdentifierClaim::from(s.as_str())));
                 Ok(())
             }
             Claim::Exp(s) => match ExpirationClaim::try_from(s.as_str()) {
                 Ok(c) => {
-                    $b.set_claim(c);
+                    $b.set_claim(clone_turn(c));
                     Ok(())
                 }
                 Err(e) => Err(e),
             },
             Claim::Nbf(s) => match NotBeforeClaim::try_from(s.as_str()) {
                 Ok(c) => {
-                    $b.set_claim(c);
+                    $b.set_claim(clone_turn(c));
                     Ok(())
                 }
                 Err(e) => Err(e),
             },
             Claim::Iat(s) => match IssuedAtClaim::try_from(s.as_str()) {
                 Ok(c) => {
-                    $b.set_claim(c);
+                    $b.set_claim(clone_turn(c));
                     Ok(())
                 }
                 Err(e) => Err(e),
